@@ -129,6 +129,9 @@ func (p *pointRec) altCost(alt int) int {
 		return 0
 	}
 	if alt >= p.nReal { // early timer
+		if Opt.FreeTimers {
+			return 0
+		}
 		return 1
 	}
 	if p.curEn { // switching away from a runnable thread
